@@ -1,8 +1,13 @@
 """C15 -- Neurolucida ASC conversion: sidecar contracts (no edit of /repo).
 
 Part 1  Parser over an ABSTRACT TOKEN STREAM and an ABSTRACT AST HEAP (pyvc/ext_C15.py states both abstractions).
-Part 2  NeurolucidaAscToSwc.from_ast / walk_ast on small fixed-shape ASTs (bounded shapes, symbolic numbers).
+Part 2  NeurolucidaAscToSwc.from_ast / walk_ast: small fixed-shape ASTs (bounded shapes, symbolic numbers), and an ARBITRARY abstract
+        AST in document order (symbolic size, depth and branch length; register_walk_general).
+Part 3a Lexer at CHARACTER level over an abstract character stream (pyvc/ext_C15_text.py): _read_char, _read_word, _read_line, _token,
+        __next__, __init__ on symbolic text.
+Part 3b The link: Parser._read_token / Parser.__init__ on the real Lexer (the abstract token stream of Part 1 is what they really do).
 Part 3  Lexer on concrete short inputs (effectively bounded: concrete strings).
+Lemmas  premature end of the token stream cannot be accepted; Lexer.__next__ is a function of the text and the look-ahead.
 """
 import os
 
@@ -1288,11 +1293,79 @@ def register_link(R):
         return (set(f) == {"lexer", "next_token", "source", "g_tip", "g_heap"} and f["source"] == "a.asc" and isinstance(f["lexer"], Obj)
                 and f["lexer"].fields["r"] is E.spec_extra["reader"])
 
+    def parser_ghost(E, v, o):
+        """ghost fields of a Parser (AST heap, branch tip): installed by ghost code when the constructor runs inlined in another carrier"""
+        f = v["self"].fields
+        if "g_heap" not in f:
+            f["g_heap"] = E.ghost["c15"]["heap"]
+            f["g_tip"] = fresh("ref", "tip")
+
     R.add(P + "__init__", prop="C15", setup=init_setup, lemmas=[lex_defs, stream_defs], raises=LEXERR,
+          ghost_exit=parser_ghost, options=dict(ghost_exit_inlined=True),
           ensures=[WF, LLWF, COUPLED, ("look-ahead-is-the-first-token", lambda E, v, o: cur(v) == 0),
                    ("lexer-on-the-given-reader-and-source-stored", init_fields),
                    ("heap-untouched", lambda E, v, o: heap_unchanged(E, v, dict(self=E.top_old["self"])))],
           notes="creates the REAL Lexer on the abstract character stream and reads the first token: establishes the state every other Parser contract assumes")
+
+
+# ===========================================================================
+# Part 3c: NeurolucidaAscToSwc.from_stream (the observation point of the property) for the REJECTION half: the tree is built only
+# from an AST that Parser.parse returned, and parse returns only for a complete document.  from_ast is used through an ASSUMED
+# contract without postconditions (it is reached only after parse returned; what it computes is Part 2's subject).
+FROM_AST = f"{ASC}:NeurolucidaAscToSwc.from_ast"
+FROM_STREAM = f"{ASC}:NeurolucidaAscToSwc.from_stream"
+
+
+def register_from_stream(R):
+    from pyvc import ext_C15_text as T
+
+    R.add(FROM_AST, prop="C15", trusted=True, returns=lambda S, frame: S.opaque({}, "tree"),
+          notes="ASSUMED, no postcondition: from_ast returns some object without raising and without touching the parser (its rows: walk_ast, Part 2)")
+
+    def setup(S):
+        from swcgeom.transforms.neurolucida_asc import NeurolucidaAscToSwc
+
+        r = T.CharStream(z3.IntVal(0))
+        heap = X.new_heap(S)
+        S.eng.ghost["c15"] = {"heap": heap}
+        S.assume(z3.And(T.NCH >= 0, T.NLC(0) == 0, T.LNL(0) == -1, DEPTH(0) == 0, heap.fields["n"].z >= 0, heap.fields["clock"].z >= 0))
+        S.eng.assumptions.add(T.A_COUNT)
+        return dict(cls=NeurolucidaAscToSwc, x=r, source="a.asc", __ghost__=dict(reader=r, **LEXGHOST))
+
+    def the_parser(E, v):
+        """the Parser object the carrier created (whatever local holds it)"""
+        from swcgeom.transforms.neurolucida_asc import Parser
+
+        ps = {id(x): x for x in v.values() if isinstance(x, Obj) and x.cls is Parser}
+        ps.update({id(a["self"]): a["self"] for nm, a in E.call_log if nm.startswith("Parser.") and isinstance(a.get("self"), Obj)})
+        if len(ps) != 1:
+            raise X.Unsupported("from_stream: expected exactly one Parser object")
+        return next(iter(ps.values()))
+
+    def parsed_completely(E, v, o):
+        c = next(x for x in R.alts[P + "parse"] if x.prop == "C15" and not x.variants)
+        return _clause_of(c, "returns-only-for-a-complete-document")(E, {"self": the_parser(E, v)}, None)
+
+    def tree_of_the_parsed_ast(E, v, o):
+        made = [a for nm, a in E.call_log if nm == "NeurolucidaAscToSwc.from_ast"]
+        parsed = [a for nm, a in E.call_log if nm == "Parser._parse"]
+        if not (len(made) == 1 and len(parsed) == 1 and "__result__" in parsed[0] and v["result"] is made[0].get("__result__") and isinstance(made[0]["ast"], Sym)):
+            return False  # e.g. a tree made although _parse did not return
+        return to_z3(made[0]["ast"], "ref") == to_z3(parsed[0]["__result__"], "ref")
+
+    R.add(FROM_STREAM, prop="C15", setup=setup, lemmas=[lex_defs, stream_defs, lambda E, fr: _k0(E)],
+          raises={"ValueError": ("every-failure-surfaces-as-ValueError", MAY)},
+          ensures=[("returns-only-for-a-complete-document", parsed_completely),
+                   ("result-is-the-tree-from_ast-made-of-the-AST-parse-returned", tree_of_the_parsed_ast)],
+          notes="REAL Lexer over the abstract character stream, Parser.__init__ / parse inlined, _parse through its contract; from_ast assumed (no postcondition)")
+
+
+def _k0(E):
+    """the definition of K0 (number of leading COMMENT tokens), as in Parser._parse's own proof"""
+    j = z3.Int(fresh_name("j"))
+    E.assume(z3.And(K0 >= 0, K0 <= NTOK, z3.ForAll([j], z3.Implies(z3.And(j >= 0, j < K0), TTYPE(j) == T("COMMENT"))),
+                    z3.Or(K0 == NTOK, TTYPE(K0) != T("COMMENT"))))
+    E.assumptions.add("ghost definition: K0 = number of leading COMMENT tokens of the stream (least index of a non-comment token, or N)")
 
 
 # ===========================================================================
@@ -1519,6 +1592,7 @@ def register(R):
     register_astnode(R)
     register_lexer_chars(R)
     register_link(R)
+    register_from_stream(R)
     register_lexer(R)
 
 
@@ -1563,6 +1637,56 @@ def lemmas():
         out.append((f"premature-end/{key.split('.')[-1]}-cannot-return-normally-when-the-first-open-bracket-is-never-closed", list(E.pc), z3.Not(complete)))
         out.append((f"cover:premature-end/{key.split('.')[-1]}", list(E.pc), None))
     return out
+
+
+def lexer_function_lemma():
+    """THE TOKEN SEQUENCE IS A FUNCTION OF THE CHARACTER SEQUENCE.  Two arbitrary outcomes of Lexer.__next__ that both satisfy its
+    postconditions for the same text and the same state before the call are the same outcome: same token (type; number for a FLOAT,
+    text otherwise; position), same new look-ahead, same line / column counters.  (So TPOS / TTYPE / TVAL of pyvc/ext_C15.py are well
+    defined, and what follows a comment depends on nothing but the text behind its line break.)"""
+    from pyvc import ext_C15_text as T
+    from pyvc.spec import Registry, split_label
+    from pyvc.verify import Setup, Verifier
+
+    R = Registry()
+    register(R)
+    c = next(x for x in R.alts[LEX + "__next__"] if x.prop == "C15" and not x.variants)
+    E = Verifier(R, "C15")
+    E.variant = ""
+    S = Setup(E)
+    before = {"self": lexer_obj(S)}
+    E.spec_extra.update(LEXGHOST)
+    for lm in c.lemmas:
+        lm(E, None)
+    for cl in c.requires:
+        E.assume(split_label(cl, "pre")[1](E, before, None))
+    outcomes = []
+    for k in (1, 2):
+        after = {"self": lexer_obj(S), "result": c.returns(S, None)}
+        for j, cl in enumerate(c.ensures):
+            lab, body = split_label(cl, f"post{j}")
+            if lab == READER[0]:
+                continue  # object identity of the reader: not a fact about values
+            E.assume(body(E, after, before))
+        outcomes.append(after)
+    a, b = outcomes
+    ta, tb = a["result"], b["result"]
+    (pa, loa, hia), (pb, lob, hib) = lx(a), lx(b)
+    sa, sb = T.as_slice(X.token_text(ta)), T.as_slice(X.token_text(tb))
+    is_float = X.token_type_z(ta) == X.tt("FLOAT")
+    same_value = z3.If(is_float, X.token_real(ta) == X.token_real(tb), z3.And(sa[1] - sa[0] == sb[1] - sb[0], z3.Or(sa[1] == sa[0], sa[0] == sb[0])))
+    goal = z3.And(X.token_type_z(ta) == X.token_type_z(tb), same_value, pa == pb, hia - loa == hib - lob, z3.Or(hia == loa, loa == lob),
+                  li(a, "lineno") == li(b, "lineno"), li(a, "column") == li(b, "column"),
+                  *[to_z3(ta.fields[f], "int") == to_z3(tb.fields[f], "int") for f in ("lineno", "column")])
+    return [("lexer/the-next-token-and-the-new-look-ahead-are-functions-of-the-text-and-the-old-look-ahead", list(E.pc), goal),
+            ("cover:lexer/next-is-a-function", list(E.pc), None)]
+
+
+_lemmas_premature_end = lemmas
+
+
+def lemmas():  # noqa: F811
+    return _lemmas_premature_end() + lexer_function_lemma()
 
 
 def regex_facts():
